@@ -208,12 +208,25 @@ var apiRuns = []apiRun{
 	}},
 	{"unmarshal", func(data []byte, rnd *rand.Rand) (int, int) {
 		ts := unmarshalTargets()
-		// three targets per input, rotating
+		// three targets per input, rotating, each through another way in (every one of them has to
+		// withstand the input on its own)
 		for k := 0; k < 3; k++ {
 			t := ts[rnd.Intn(len(ts))]()
-			ion.Unmarshal(data, t)
+			switch k {
+			case 0:
+				ion.Unmarshal(data, t)
+			case 1:
+				ion.UnmarshalFrom(ion.NewReaderBytes(data), t)
+			default:
+				ion.NewDecoder(ion.NewReader(bytes.NewReader(data))).DecodeTo(t)
+			}
 		}
-		return 0, 3
+		// the untyped ways in, which are the ones that recurse on the input's own shape
+		var x interface{}
+		ion.UnmarshalFrom(ion.NewReaderBytes(data), &x)
+		var y interface{}
+		ion.UnmarshalString(string(data), &y)
+		return 0, 5
 	}},
 	{"unmarshal-all-targets", func(data []byte, rnd *rand.Rand) (int, int) {
 		if len(data) > 64 && rnd.Intn(8) != 0 {
@@ -355,7 +368,7 @@ func c06Judge(c *Ctx, in hostileInput, res hostileResult) {
 	lim := uint64(1<<20 + 1024*len(in.data))
 	switch res.Where { // these programs make several independent API calls
 	case "unmarshal":
-		lim *= 3
+		lim *= 6
 	case "unmarshal-all-targets":
 		lim *= uint64(len(unmarshalTargets()))
 	}
@@ -846,7 +859,11 @@ func hostileDocs(r *rand.Rand) []hostileInput {
 	add("long-number", []byte(strings.Repeat("1_", 30000)+"1"))
 	// --- nesting deep enough that one stack frame per level would exceed the runtime's stack limit
 	// (a fatal error that cannot be recovered from): a few megabytes of input
-	for _, ch := range []string{"[", "(", "{a:", "a::[", "[(", "{a:[b::("} {
+	// (with a null in front of every level: a depth count that a null disturbs would let the nesting
+	// through; 2.6 million levels are more than the default stack limit allows for any recursion)
+	add("extreme-nesting", []byte(strings.Repeat("[null,", 2_600_000)))
+	add("extreme-nesting", []byte(strings.Repeat("{a:null.int,b:", 2_600_000)+"1"))
+	for _, ch := range []string{"[", "(", "{a:", "a::[", "[(", "{a:[b::(", "(null ", "[null.int,null,["} {
 		n := 7_000_000 / len(ch)
 		add("extreme-nesting", []byte(strings.Repeat(ch, n)))
 		add("extreme-nesting", []byte(strings.Repeat(ch, n)+"1"))
